@@ -25,6 +25,13 @@ structure Facts where
   /-- `SafeParamsFor` / `SafeParametersFor` reach the paths map and the operation only through
       nil-safe accessors (no `s.spec.Paths.Paths`, no `s.operations[..][..].Parameters`) -/
   paramsNilSafe : Bool
+  /-- exported methods of `*Spec` that may write to state reachable from the receiver or a parameter
+      (conservative syntactic effect analysis, transitive through same-package callees) -/
+  getterWrites : List String
+  /-- exported map-returning methods of `*Spec` that return a clone -/
+  freshMapGetters : List String
+  /-- exported map-returning methods of `*Spec` that return a field of the receiver itself -/
+  aliasMapGetters : List String
   /-- PathItem fields tested by `SafeParametersFor`, in source order -/
   paramsForMethods : List String
   deriving Repr
@@ -43,6 +50,10 @@ def reference : Facts where
   mixinExtDocsGuard := true
   schemaRefGuard := true
   paramsNilSafe := true
+  getterWrites := []
+  freshMapGetters := ["AllEnums", "AllPatterns", "HeaderEnums", "HeaderPatterns", "ItemsEnums", "ItemsPatterns",
+                      "ParameterEnums", "ParameterPatterns", "SchemaEnums", "SchemaPatterns"]
+  aliasMapGetters := ["Operations"]
   paramsForMethods := ["get", "head", "options", "post", "patch", "put", "delete"]
 
 end Facts
